@@ -188,7 +188,9 @@ pub(crate) fn render_vardct<S: Sample>(
         let lf_xyb = if let Some(x) = lf_frame {
             tracing::trace_span!("Copy LFQuant").in_scope(|| -> Result<_> {
                 let lf_frame = std::sync::Arc::clone(&x.image).run_with_image()?;
-                let lf_frame = lf_frame.blend(None, pool)?.try_clone()?;
+                let mut lf_frame = lf_frame.blend(None, pool)?.try_clone()?;
+                // LF frame coded with Modular may still have integer samples.
+                lf_frame.convert_modular_color(frame.image_header().metadata.bit_depth)?;
                 Ok(lf_frame)
             })?
         } else {
